@@ -39,6 +39,21 @@ inline uint64_t parse_value(const void* p, size_t len) {
   return id == 0 ? 0 : id;
 }
 
+// Identity of value bytes read back from an index: the id for self-describing values (>= 8 bytes), a fold of length and
+// bytes for shorter ones (two inserts of equal short values are interchangeable for the checkers), UINT64_MAX for garbage.
+inline uint64_t value_identity(const void* p, size_t len) {
+  if (len >= 8) { const uint64_t id = parse_value(p, len); return id == 0 ? UINT64_MAX : id; }
+  const auto* b = static_cast<const unsigned char*>(p);
+  uint64_t h = 0x4000000000000000ULL | (static_cast<uint64_t>(len) << 56);
+  for (size_t i = 0; i < len; i++) h ^= static_cast<uint64_t>(b[i]) << (8 * i);
+  return h;
+}
+inline uint64_t value_identity_of(uint64_t id, size_t len) {
+  if (len >= 8) return id;
+  const std::string v = make_value(id, len);
+  return value_identity(v.data(), v.size());
+}
+
 // ---------------------------------------------------------------- M2 -----
 struct Shape {
   uint64_t leaves = 0;
